@@ -241,16 +241,22 @@ def skew_def(beta):
     return MOD if v == 0 else _LOG[v]
 
 
+_WALSH = None
+
+
 def walsh_log_table():
     """Walsh-Hadamard transform (mod 65535) of LOG with LOG[0]:=0, by definition
-    W[y] = sum_x (-1)^{popcount(x&y)} L[x]; computed with numpy butterflies."""
-    import numpy as np
-    a = np.array([0] + [llog(v) for v in range(1, ORDER)], dtype=np.int64)
-    h = 1
-    while h < ORDER:
-        a = a.reshape(-1, 2, h)
-        s = (a[:, 0, :] + a[:, 1, :]) % MOD
-        d = (a[:, 0, :] - a[:, 1, :]) % MOD
-        a = np.stack([s, d], axis=1)
-        h *= 2
-    return a.reshape(-1)
+    W[y] = sum_x (-1)^{popcount(x&y)} L[x]; plain butterflies, pure Python."""
+    global _WALSH
+    if _WALSH is None:
+        a = [0] + [llog(v) for v in range(1, ORDER)]
+        h = 1
+        while h < ORDER:
+            for base in range(0, ORDER, 2 * h):
+                for i in range(base, base + h):
+                    x, y = a[i], a[i + h]
+                    a[i] = (x + y) % MOD
+                    a[i + h] = (x - y) % MOD
+            h *= 2
+        _WALSH = a
+    return _WALSH
